@@ -934,6 +934,29 @@ impl Prop for C11Options {
             Ok(Ok(c)) => c,
         };
         let mut pool = dhcp::pool::Pool::new_in_memory().expect("pool");
+        // what a client is told is a function of the configuration and of its own request: an
+        // earlier request of another client, received on the same address while the interface
+        // had another MTU / router (or none yet), changes nothing
+        let k = (c.style >> 1) & 3;
+        if k != 0 {
+            let mut early = build_request(c, wire::DISCOVER, Some(vec![0xee, k]), None);
+            match k {
+                1 => {
+                    early.if_mtu = None;
+                    early.if_router = None;
+                }
+                2 => {
+                    early.if_mtu = Some(9000);
+                    early.if_router = Some(Ipv4Addr::new(10, 255, 255, 254));
+                }
+                _ => {
+                    early.if_mtu = Some(c.if_mtu.map(|m| m as u32 + 4).unwrap_or(1280));
+                    early.pkt.options.other.remove(&dhcppkt::OPTION_PARAMLIST);
+                }
+            }
+            let _ = dhcp::handle_pkt(&mut pool, &early, Default::default(), &conf);
+            out.class("after-an-earlier-request-seen-with-other-interface-facts");
+        }
         let req = build_request(c, if c.style % 2 == 0 { wire::DISCOVER } else { wire::REQUEST }, None, None);
         let reply = match dhcp::handle_pkt(&mut pool, &req, Default::default(), &conf) {
             Ok(r) => r,
@@ -1157,7 +1180,19 @@ impl Prop for ReplyInvariants {
         let mut ids: std::collections::HashSet<Ipv4Addr> = Default::default();
         let mut offered: Option<Ipv4Addr> = None;
         for step in 0..2 {
-            let mut req = build_request(c, if step == 0 { wire::DISCOVER } else { wire::REQUEST }, None, offered);
+            // client identifier: none, or hardware type 1 + six octets (its own address, or not),
+            // or an opaque one
+            let cid = match (c.style >> 2) & 7 {
+                4 => Some([&[1u8][..], &MACS[c.mac as usize][..]].concat()),
+                5 => Some(vec![1u8, 2, 0xcc, 0xcc, 0xcc, 0xcc, c.mac]),
+                6 => Some(vec![0u8, b'h', b'o', b's', b't', c.mac]),
+                7 => Some([&[0xffu8, 0, 0, 0, 1, 0, 1][..], &MACS[c.mac as usize][..]].concat()),
+                _ => None,
+            };
+            if cid.is_some() && !c.plain_hw() {
+                out.class("client-id-with-a-hardware-address-that-is-not-six-octets");
+            }
+            let mut req = build_request(c, if step == 0 { wire::DISCOVER } else { wire::REQUEST }, cid, offered);
             if step == 1 {
                 req.pkt.options.other.insert(dhcppkt::OPTION_SERVERID, c.serverip.octets().to_vec());
             }
@@ -1208,6 +1243,29 @@ impl Prop for ReplyInvariants {
                 let mt = got.get(&wire::OPT_MSG_TYPE).and_then(|v| v.first().copied());
                 if mt != Some(if step == 0 { wire::OFFER } else { wire::ACK }) {
                     out.fail(format!("C13:reply-message-type:{}", kind), format!("{:?}", mt));
+                    return out;
+                }
+                // the reply echoes the request's transaction id, hardware address, relay address
+                // and flags
+                if reply.chaddr != req.pkt.chaddr {
+                    out.fail("C13:echo-chaddr", format!("the {} carries hardware address {:02x?}; the request's is {:02x?} (client id {:02x?})", kind, reply.chaddr, req.pkt.chaddr, req.pkt.options.get_clientid()));
+                    return out;
+                }
+                if reply.xid != req.pkt.xid || reply.giaddr != req.pkt.giaddr || reply.flags != req.pkt.flags {
+                    out.fail("C13:echo-fields", format!("the {}: xid {:#x} giaddr {} flags {:#x}", kind, reply.xid, reply.giaddr, reply.flags));
+                    return out;
+                }
+                // ... and touches only the row of the address it assigns
+                let rows_after = crate::hist::rows_of(&mut pool);
+                let changed: Vec<Ipv4Addr> = rows_after
+                    .iter()
+                    .filter(|r| !rows_before.contains(r))
+                    .map(|r| r.ip)
+                    .chain(rows_before.iter().filter(|r| !rows_after.iter().any(|a| a.ip == r.ip)).map(|r| r.ip))
+                    .filter(|ip| *ip != reply.yiaddr)
+                    .collect();
+                if !changed.is_empty() {
+                    out.fail("C13:reply-touched-other-rows", format!("the {} assigns {} and changed the rows of {:?}", kind, reply.yiaddr, changed));
                     return out;
                 }
             } else {
